@@ -179,6 +179,8 @@ def tags_of(case) -> set:
         t.add("ode_modifier")
     if case.get("spelling"):
         t.add("spelling_" + case["spelling"])
+    if case.get("rate_modifier"):
+        t.add("rate_modifier")
     if any(s["surface"] for s in case["net"]["species"]):
         t.add("ice_species")
     if case.get("entry") == "files":
